@@ -795,6 +795,35 @@ func (c *Ctx) c12Wiring(b BK) {
 			return true
 		})
 	}
+	// … on every path of the option callback (walked with the constructor's state): a callback installed only under some
+	// configuration leaves the janitor without it in the others
+	for _, p := range paths {
+		for _, ev := range p.Events {
+			if ev.Kind != pw.EvCall || len(ev.Sub) == 0 {
+				continue
+			}
+			for _, sp := range ev.Sub {
+				if sp.Panic {
+					continue
+				}
+				set := map[string]bool{}
+				for _, se := range sp.Events {
+					if se.Kind == pw.EvFieldWrite && se.Field != nil && se.Value != nil && se.Value.Kind == pw.KFuncRef {
+						set[fname(se.Field)] = true
+					}
+				}
+				if len(set) == 0 {
+					continue // another option callback (not the one wiring the Trait)
+				}
+				for f := range want {
+					if !set[f] && !bad {
+						bad = true
+						r.Bad("R12.3", ctor, "callback-wiring:"+f, c.Pos(ev.Pos), "the option callback installs Trait."+f+" on some of its paths only: under the other configurations the janitor has no "+f+" (cleanup / count limit / eviction silently do not run)", shortTrace(sp))
+					}
+				}
+			}
+		}
+	}
 	for f, w := range want {
 		if f == "Evict" && strings.HasPrefix(got[f], "evict") {
 			continue // one of the backend's evictors (which one: strategy-wiring above)
